@@ -69,7 +69,12 @@ CLAIM = dict(
          'info omitted and one info dict reused, arguments bit-identical afterwards, no aliasing, restart through the returned '
          'object); SCALES / DEGENERATE (single sample, mode size 1, d = 2, duplicates only, (w, lamb) * 2^k for k = -1000 .. 940 '
          'exactly invariant, y * 2^+-300: descent / shape / info in the search only - the normal equations are then numerically '
-         'singular, so no core-by-core correspondence). WEIGHTS WITH EXACT ZEROS (all samples of one slice masked out, or every '
+         'singular, so no core-by-core correspondence). STIFF BUT FULL-RANK SLICE DESIGNS (interface vectors / data '
+         'with a large common component plus O(1) variation, lamb 1e-6 .. 1e-10, badly balanced start): _optimize_core against the '
+         'exact Qc minimiser by the exact rational objective gap, whole als in the search (last core, descent), asserted where the '
+         'slice systems have cond <= 1e14 (measured on the unchanged tree: gap <= 6e-19 sum w y^2 there; beyond 1/eps the Gram '
+         'matrix is numerically singular and the unchanged code itself loses the minimiser - those slices are counted, not '
+         'asserted). WEIGHTS WITH EXACT ZEROS (all samples of one slice masked out, or every '
          'weight 0; the theorems need only w >= 0 and a sample per slice - the minimiser of such a slice is 0) in correspondence and '
          'search; BOOLEAN OPTIONS in every false (False / 0 / None / np.False_) and true (True / 1 / np.True_) form: '
          'allow_skip_cores on data with a slice without sample (constant rank and r given; the model gets the truth value), log, '
@@ -740,6 +745,225 @@ def stream_als_func(R, ctx, tn):
     return bad
 
 
+# ---------------------------------------------------------------------------------------------- stiff but full-rank slice designs
+# Regime: the slice system N = A^T W A + lamb I is symmetric positive definite with condition 1e8 .. 1e14 (interface vectors
+# with a large common component plus O(1) variation, data with a large offset, lamb = 2^-20 .. 2^-33).  Measured on the
+# unchanged tree (600 slices): the exact objective gap J(returned slice) - J(exact minimiser) is <= 6e-19 * sum(w y^2) for
+# cond(N) < 1e16; beyond 1/eps the Gram matrix is numerically singular and the unchanged code itself loses the minimiser
+# (reported to the lead; such slices are counted, not asserted).  Asserted: gap <= max(1e-9 * J*, 1e-13 * sum(w y^2)).
+COND_OK = 1e14
+GAP_REL, GAP_S = 1e-9, 1e-13
+
+
+def solve_fr(N, g):
+    """exact Gauss-Jordan over Fractions"""
+    n = len(g)
+    M = [list(row) + [g[i]] for i, row in enumerate(N)]
+    for c in range(n):
+        p_ = max(range(c, n), key=lambda r_: abs(M[r_][c]))
+        M[c], M[p_] = M[p_], M[c]
+        piv = M[c][c]
+        M[c] = [v / piv for v in M[c]]
+        for r_ in range(n):
+            if r_ != c and M[r_][c] != 0:
+                f = M[r_][c]
+                M[r_] = [a - f * b for a, b in zip(M[r_], M[c])]
+    return [M[i][n] for i in range(n)]
+
+
+def slice_problem(L, Rv, idx, y, w, lamb):
+    """exact ridge problem of one slice: rows a_j = kron(L_j, R_j) (index a*r2+b); returns (J, N, g, cond)"""
+    rows = [[Fraction(la) * Fraction(rb) for la in L[j] for rb in Rv[j]] for j in idx]
+    ys = [Fraction(y[j]) for j in idx]
+    ws = [Fraction(w[j]) for j in idx]
+    lam = Fraction(lamb)
+    p_ = len(rows[0])
+    N = [[sum(wj * r_[a] * r_[b] for wj, r_ in zip(ws, rows)) + (lam if a == b else 0) for b in range(p_)] for a in range(p_)]
+    g = [sum(wj * r_[a] * yj for wj, r_, yj in zip(ws, rows, ys)) for a in range(p_)]
+
+    def J(x):
+        return sum(wj * (sum(a * b for a, b in zip(r_, x)) - yj) ** 2 for wj, r_, yj in zip(ws, rows, ys)) + lam * sum(v * v for v in x)
+    cond = float(np.linalg.cond(np.array([[float(v) for v in row] for row in N])))
+    return J, N, g, cond
+
+
+def gap_verdict(gap, Jopt, S):
+    """None if the exact objective gap is within the measured float accuracy of the unchanged code"""
+    if gap < 0:
+        return 'the reference is not the minimiser (negative gap)'
+    if gap > max(Fraction(GAP_REL) * Jopt, Fraction(GAP_S) * S):
+        return f'objective gap {float(gap):.3e} (J* = {float(Jopt):.3e}, sum w y^2 = {float(S):.3e})'
+    return None
+
+
+def gen_stiff_core(rng):
+    r1, r2, n = rng.choice([1, 2]), rng.choice([1, 2, 2]), rng.randint(1, 3)
+    m = rng.randint(n * r1 * r2 + 1, n * r1 * r2 + 8)
+    B = 2 ** rng.choice([8, 10, 12])
+    lamb = Fraction(1, 2 ** rng.choice([20, 24, 27, 30, 33]))
+    i = [j % n for j in range(m)]
+    rng.shuffle(i)
+    Yl = [[B + rng.randint(-3, 3)] + [rng.randint(-3, 3) for _ in range(r1 - 1)] for _ in range(m)]
+    Yr = [[rng.choice([1, 2, 4]) * rng.choice([1, B // 16]) + rng.randint(-2, 2)] + [rng.randint(-3, 3) for _ in range(r2 - 1)]
+          for _ in range(m)]
+    y = [rng.choice([0, B * B]) + rng.randint(-40, 40) + Fraction(rng.randint(-8, 8), 16) for _ in range(m)]
+    w = [Fraction(rng.choice([1, 2, 1, 3]), rng.choice([1, 2])) for _ in range(m)] if rng.random() < 0.4 else None
+    Q = [[[rng.randint(-3, 3) for _ in range(r2)] for _ in range(n)] for _ in range(r1)]
+    return dict(r1=r1, r2=r2, n=n, i=i, Yl=Yl, Yr=Yr, y=y, w=w, lamb=lamb, Q=Q)
+
+
+def stream_opt_core_stiff(R, ctx, tn):
+    """_optimize_core on stiff slice designs: the model (exact over Qc) supplies the minimiser, the verdict is the EXACT objective
+    gap of the slice the implementation returns (rational arithmetic), asserted where cond(N) <= COND_OK"""
+    import importlib
+    M = importlib.import_module('teneva.als')
+    rng = ctx['rng']
+    cases, terms = [], []
+    for t in range(90 if ctx['thorough'] else 28):
+        c = gen_stiff_core(rng)
+        m = len(c['i'])
+        with warnings.catch_warnings():
+            warnings.simplefilter('ignore')
+            try:
+                out = M._optimize_core(np.array(c['Q'], dtype=float), np.array(c['i']), np.array([float(v) for v in c['y']]),
+                                       np.array(c['Yl'], dtype=float), np.array(c['Yr'], dtype=float).T.copy(), float(c['lamb']),
+                                       None if c['w'] is None else np.array([float(v) for v in c['w']]))
+                c['out'] = np.array(out)
+            except Exception as ex:  # noqa
+                c['err'] = repr(ex)[:200]
+        S_ = samples_q([[x] for x in c['i']], c['y'], c['w'] if c['w'] is not None else [1] * m)
+        terms.append(f'tagQ 0 0 ++ tagQ 0 0 ++ optQ {C.qlit(c["lamb"])} {core_q(np.array(c["Q"]))} {S_} '
+                     f'(vecsQ {C.nested(c["Yl"])}) (vecsQ {C.nested(c["Yr"])})')
+        cases.append(c)
+    vals = C.run_cases(f'{R.pid}_optimize_core_stiff_Qc', HQ, terms, chunk=7)
+    bad = []
+    dist = dict(cases=len(cases), slices=0, asserted=0, out_of_regime=0, cond_1e10_1e14=0, worst_gap_over_S=0.0)
+    for c, v in zip(cases, vals):
+        inp = dict(r1=c['r1'], r2=c['r2'], n=c['n'], i=c['i'], Yl=c['Yl'], Yr=c['Yr'], y=[str(x) for x in c['y']],
+                   w=None if c['w'] is None else [str(x) for x in c['w']], lamb=str(c['lamb']), Q=c['Q'], family='stiff-core')
+        R.add_distinct(('optimize_core_stiff_Qc', inp))
+        if 'err' in c:
+            bad.append(dict(stream='optimize_core_stiff_Qc', input=inp, why='implementation raised: ' + c['err']))
+            continue
+        G = v[2]                                              # model core, entries (num, den)
+        m = len(c['i'])
+        w = c['w'] if c['w'] is not None else [Fraction(1)] * m
+        S = sum(Fraction(wj) * Fraction(yj) ** 2 for wj, yj in zip(w, c['y']))
+        for k in range(c['n']):
+            idx = [j for j in range(m) if c['i'][j] == k]
+            if not idx:
+                continue
+            J, N, g, cond = slice_problem(c['Yl'], c['Yr'], idx, c['y'], w, c['lamb'])
+            dist['slices'] += 1
+            if cond > COND_OK:
+                dist['out_of_regime'] += 1
+                continue
+            dist['asserted'] += 1
+            dist['cond_1e10_1e14'] += 1 if cond >= 1e10 else 0
+            xs = [Fraction(G[a][k][b][0], G[a][k][b][1]) for a in range(c['r1']) for b in range(c['r2'])]
+            xh = [Fraction(float(c['out'][a, k, b])) for a in range(c['r1']) for b in range(c['r2'])]
+            Jo = J(xs)
+            why = gap_verdict(J(xh) - Jo, Jo, S)
+            dist['worst_gap_over_S'] = max(dist['worst_gap_over_S'], float((J(xh) - Jo) / S) if S else 0.0)
+            if why:
+                bad.append(dict(stream='optimize_core_stiff_Qc', input=dict(inp, slice=k, cond=cond), why=why))
+                break
+    R.corr.append(dict(name='optimize_core_stiff_Qc', cases=len(cases), mismatches=len(bad),
+                       comparison='exact (rational) objective gap of the returned slice against the model minimiser over Qc: '
+                                  f'gap <= max({GAP_REL} J*, {GAP_S} sum w y^2) for every slice with cond(N) <= {COND_OK:g}',
+                       distribution=dist, first_mismatches=bad[:3]))
+    return bad
+
+
+def gen_stiff_case(rng, kind=None):
+    """whole-als stiff data: values ~ offset * rank-1 (1 + 0.1 noise) + O(1) rank-1 + 1e-2 noise, small lamb, full coverage + duplicates;
+    or a badly balanced initial tensor (one interface direction scaled by 1e-4 .. 1e-6)"""
+    kind = kind or ('offset' if rng.random() < 0.8 else 'unbalanced')
+    d = rng.choice([2, 3, 3])
+    n = [rng.choice([2, 3, 4]) for _ in range(d)]
+    r = [1] + [2 if rng.random() < 0.85 else 1 for _ in range(d - 1)] + [1]
+    I = [list(t) for t in itertools.product(*[range(k) for k in n])]
+    I = I + [list(I[rng.randrange(len(I))]) for _ in range(rng.randint(0, 8))]
+    rng.shuffle(I)
+    nr = np.random.default_rng(rng.randrange(10 ** 6))
+    off = rng.choice([1e3, 3e3, 1e4, 1e4, 2e4, 2e4]) if kind == 'offset' else 1.0
+    lamb = 10.0 ** (-rng.choice([6, 7, 8, 9, 10]))
+    u = [nr.normal(size=k) for k in n]
+    v = [1 + 0.1 * nr.normal(size=k) for k in n]
+    y = [float(off * np.prod([v[j][row[j]] for j in range(d)]) + np.prod([u[j][row[j]] for j in range(d)]) + 0.01 * nr.normal())
+         for row in I]
+    Y0 = [nr.normal(size=(r[k], n[k], r[k + 1])) for k in range(d)]
+    if kind == 'unbalanced':
+        k = rng.randrange(d - 1)
+        if Y0[k].shape[2] >= 2:
+            Y0[k][:, :, 1] *= 10.0 ** (-rng.choice([4, 5, 6]))
+    return dict(family='stiff-' + kind, shape=n, I=I, y=y, Y0=[G.tolist() for G in Y0], lamb=lamb, off=off)
+
+
+def interfaces_of(Y, I, k):
+    L, Rv = [], []
+    for row in I:
+        v = np.ones(1)
+        for j in range(k):
+            v = v @ Y[j][:, row[j], :]
+        u = np.ones(1)
+        for j in range(len(Y) - 1, k, -1):
+            u = Y[j][:, row[j], :] @ u
+        L.append([float(x) for x in v])
+        Rv.append([float(x) for x in u])
+    return L, Rv
+
+
+def core_conds(Y, I, lamb, k):
+    L, Rv = interfaces_of(Y, I, k)
+    out = []
+    for i in range(Y[k].shape[1]):
+        idx = [j for j in range(len(I)) if I[j][k] == i]
+        if idx:
+            A = np.array([np.kron(L[j], Rv[j]) for j in idx])
+            out.append(float(np.linalg.cond(A.T @ A + lamb * np.eye(A.shape[1]))))
+    return out
+
+
+def oracle_stiff(tn, c, nswp=4):
+    """stiff regime, implementation only: after every sweep the last updated core (core 1) is the minimiser of its slice problems up
+    to the exact objective gap bound (own rational solver), and the objective does not rise, wherever the slice systems met are
+    within the conditioning the unchanged code handles"""
+    I, y, lamb = c['I'], c['y'], c['lamb']
+    w = [1.0] * len(y)
+    S = sum(Fraction(v) ** 2 for v in y)
+    Y = [np.array(G, dtype=float) for G in c['Y0']]
+    Ia, ya = np.array(I, dtype=int), np.array(y, dtype=float)
+    Jp = J_ind(Y, I, y, None, lamb)
+    cp = max(max(core_conds(Y, I, lamb, k)) for k in range(len(Y)))
+    for swp in range(1, nswp + 1):
+        with warnings.catch_warnings():
+            warnings.simplefilter('ignore')
+            Y = tn.als(Ia, ya, Y, nswp=1, e=None, lamb=lamb, info={})
+        if [G.shape for G in Y] != [np.array(G).shape for G in c['Y0']] or not all(np.isfinite(G).all() for G in Y):
+            return dict(what='als (stiff data): shape changed or non-finite cores', sweep=swp)
+        J = J_ind(Y, I, y, None, lamb)
+        cn_ = max(max(core_conds(Y, I, lamb, k)) for k in range(len(Y)))
+        if max(cp, cn_) <= 1e12 and J > Jp + max(GAP_REL * Jp, 10 * GAP_S * float(S)):
+            return dict(what='training objective increased from sweep to sweep (stiff but well-posed slice designs)',
+                        got=[Jp, J], sweep=swp, cond=max(cp, cn_))
+        Jp, cp = J, cn_
+        L, Rv = interfaces_of(Y, I, 1)
+        for i in range(Y[1].shape[1]):
+            idx = [j for j in range(len(I)) if I[j][1] == i]
+            Jf, N, g, cond = slice_problem(L, Rv, idx, y, w, lamb)
+            if cond > COND_OK:
+                continue
+            xs = solve_fr(N, g)
+            xh = [Fraction(float(Y[1][a, i, b])) for a in range(Y[1].shape[0]) for b in range(Y[1].shape[2])]
+            Jo = Jf(xs)
+            why = gap_verdict(Jf(xh) - Jo, Jo, S)
+            if why:
+                return dict(what='the last updated core is not the minimiser of the objective given the other cores '
+                                 '(stiff but well-posed slice design): ' + why, sweep=swp, slice=i, cond=cond)
+    return None
+
+
 # ---------------------------------------------------------------------------------------------- als_func, default entry path
 BOXES = [(0.0, 1.0), (0.5, 3.0), (-3.0, -1.0), (2.0, 7.0), (-1.0, 1.0), (-2.0, 5.0), (0.25, 0.75)]
 TPOS = [-0.25, 0.0, 0.0, 0.125, 0.25, 0.375, 0.5, 0.625, 0.75, 0.875, 1.0, 1.0, 1.5]   # outside, boundary, interior
@@ -939,6 +1163,7 @@ def correspondence(R, ctx):
     tn = C.import_teneva()
     bad = []
     bad += stream_opt_core(R, ctx, tn)
+    bad += stream_opt_core_stiff(R, ctx, tn)
     bad += stream_als_q(R, ctx, tn)
     bad += stream_als_f(R, ctx, tn)
     bad += stream_als_func(R, ctx, tn)
@@ -1682,6 +1907,16 @@ def search(R, ctx, deep, hints):
             push('als', jcase(c), dict(what='oracle raised: ' + repr(ex)[:200]))
     # cross-cutting families: argument forms, histories on reused objects, scales and degenerate shapes
     xr = C.Rng(4242 + ctx['seed'] % 1000)
+    # stiff but full-rank slice designs (large offset / badly balanced start, small lamb)
+    for t in range(30 if deep else 12):
+        if len(fails) >= 5:
+            break
+        c = gen_stiff_case(xr)
+        n_eval += 1
+        try:
+            push('stiff', c, oracle_stiff(tn, c))
+        except Exception as ex:  # noqa
+            push('stiff', c, dict(what='stiff oracle raised: ' + repr(ex)[:200]))
     # weights with exact zeros (a whole slice masked out, k0 = 1 = the core updated last in half of the cases)
     for t in range(16 if deep else 4):
         if len(fails) >= 5:
@@ -1796,6 +2031,8 @@ def replay(data):
     elif kind == 'func':
         c = dict(inp, lamb=Fraction(inp['lamb']))
         f = oracle_func(tn, c)
+    elif kind == 'stiff':
+        f = oracle_stiff(tn, inp)
     elif kind == 'flags':
         c = dict(inp, lamb=Fraction(inp['lamb']), w=[Fraction(v) for v in inp['w']] if inp.get('w') else None)
         f = oracle_flags(tn, c)
